@@ -6,8 +6,8 @@
      aggr_equiv              any number of ranks, any assignment of ranks to aggregators:
                              aggregated file == union of the ranks' own writes
      aggr_init_*             the groups computed by ncmpio_intra_node_aggr_init (one node)
-     flatten_req_spec_*      flatten_req against the row-major SPEC: refuted for a strided record
-                             dimension, proved otherwise
+     flatten_req_spec        flatten_req == the row-major SPEC, every variable kind and request
+                             (flatten_req_old_refuted: the code before the record-stride fix)
    Disks are compared extensionally (disk_eq).  No axioms. *)
 From Pnc Require Import Aggregate Proofs_Disk Proofs_Lists Proofs_Config.
 Require Import Lia ZArith List Bool ZifyBool Permutation Sorted.
@@ -755,39 +755,18 @@ Proof.
   apply flat_map_ext. intros d. apply map_ext. intros k. ring.
 Qed.
 
-(* the full statement: flatten_req covers exactly the elements of the request, in order *)
-Definition flatten_req_spec_full : Prop :=
-  forall g start count stride,
-    wf_geom g -> req_ok (g_shape g) start count stride -> zprod count <> 0 ->
-    pair_elems (g_xsz g) (flatten_req g start count (Some stride)) = spec_offsets g start count stride.
-
-Definition g_aggr_bug : geom := mkgeom 512 4 [0; 3] 12 1.
-
-(* refuted: a strided access along the record dimension.  flatten_req advances var_begin by
-   ONE record per iteration (ncmpio_intra_node.c, flatten_req: `var_begin += ncp->recsize`)
-   where the request asks for stride[0] records: records 0 and 1 are written instead of 0 and 2 *)
-Theorem flatten_req_spec_refuted : ~ flatten_req_spec_full.
-Proof.
-  intros H. specialize (H g_aggr_bug [0; 0] [2; 3] [2; 1]).
-  assert (Hwf : wf_geom g_aggr_bug).
-  { unfold wf_geom, g_aggr_bug, dims_wf, rec_packed. cbn. repeat split; try lia.
-    repeat constructor; lia. }
-  assert (Hreq : req_ok (g_shape g_aggr_bug) [0; 0] [2; 3] [2; 1]).
-  { cbn. repeat split; try lia. }
-  specialize (H Hwf Hreq ltac:(cbn; lia)). vm_compute in H. discriminate.
-Qed.
-
 Lemma flat_map_pair_elems {A} xsz (f : A -> list (Z * Z)) l :
   pair_elems xsz (flat_map f l) = flat_map (fun x => pair_elems xsz (f x)) l.
 Proof. unfold pair_elems. apply flat_map_flat_map. Qed.
 
-(* partial: correct for every request that does not stride along the record dimension *)
-Theorem flatten_req_spec_partial : forall g start count stride,
+(* C10: flatten_req covers exactly the elements of the request, in row-major order - for every
+   variable kind, dimensionality and accepted request (the direct, non-aggregated path addresses
+   the same elements: Proofs_Access.model_offsets_spec) *)
+Theorem flatten_req_spec : forall g start count stride,
   wf_geom g -> req_ok (g_shape g) start count stride -> zprod count <> 0 ->
-  (g_isrec g = true -> hd 1 stride = 1 \/ hd 0 count = 1) ->
   pair_elems (g_xsz g) (flatten_req g start count (Some stride)) = spec_offsets g start count stride.
 Proof.
-  intros g start count stride (Hx & Hrs & Hdw & Hpk) Hreq Hz Hrec.
+  intros g start count stride (Hx & Hrs & Hdw & Hpk) Hreq Hz.
   destruct (req_ok_lengths _ _ _ _ Hreq) as (Ls & Lc & Lt).
   unfold flatten_req, spec_offsets.
   destruct (g_shape g) as [|s0 ss] eqn:Es.
@@ -802,37 +781,92 @@ Proof.
       destruct start as [|st0 st]; [discriminate|]. destruct count as [|c0 ct]; [discriminate|].
       destruct stride as [|t0 tt]; [discriminate|].
       cbn [length] in Ls, Lc, Lt. cbn [hd tl] in *. cbn [zprod] in Hz.
-      specialize (Hrec eq_refl).
-      assert (Hi : forall i, In i (zrange 0 c0) -> i * t0 = i).
-      { intros i Hin. apply In_zrange in Hin. destruct Hrec as [E1 | E1]; [rewrite E1; lia | assert (i = 0) by lia; subst i; lia]. }
       rewrite flat_map_pair_elems. cbn [req_indices]. rewrite map_flat_map_comm.
-      apply flat_map_ext_In. intros j Hj. rewrite map_map.
+      apply flat_map_ext. intros j. rewrite map_map.
       destruct ss as [|s1 ss'].
       * (* 1-D record variable *)
         destruct st; [|discriminate]. destruct ct; [|discriminate]. destruct tt; [|discriminate].
         unfold flatten_subarray, pair_elems. cbn [flat_map fst snd req_indices map app].
         rewrite Z.div_same by lia. rewrite zrange_1. cbn [map].
         rewrite elem_off_rec by assumption. rewrite Es. cbn [tl lin].
-        apply (f_equal (fun z => [z])). rewrite (Hi j Hj). ring.
+        apply (f_equal (fun z => [z])). ring.
       * rewrite flatten_subarray_spec by (lia || discriminate || nia).
-        apply map_ext. intros idx. rewrite elem_off_rec by assumption. rewrite Es. cbn [tl].
-        rewrite (Hi j Hj). ring.
+        apply map_ext. intros idx. rewrite elem_off_rec by assumption. rewrite Es. cbn [tl]. ring.
     + (* fixed-size variable *)
       rewrite flatten_subarray_spec by (lia || discriminate || nia).
       apply map_ext. intros idx. rewrite elem_off_fixed by assumption. now rewrite Es.
 Qed.
 
+(* a NULL stride pointer (vara, var1, var) is the all-ones stride *)
+Theorem flatten_req_spec_none : forall g start count,
+  wf_geom g -> req_ok (g_shape g) start count (ones (length (g_shape g))) -> zprod count <> 0 ->
+  pair_elems (g_xsz g) (flatten_req g start count None) =
+  spec_offsets g start count (ones (length (g_shape g))).
+Proof.
+  intros g start count Hwf Hreq Hz.
+  rewrite <- (flatten_req_spec g start count (ones (length (g_shape g)))) by assumption.
+  f_equal. unfold flatten_req. destruct (g_shape g) as [|s0 ss] eqn:Es; [reflexivity|].
+  destruct (g_isrec g); [|reflexivity].
+  cbn [length]. rewrite ones_S. cbn [hd]. reflexivity.
+Qed.
+
 Example flatten_req_spec_example :
   let g := mkgeom 2048 8 [0; 3; 4] 200 3 in
-  wf_geom g /\ req_ok (g_shape g) [2; 0; 1] [3; 2; 2] [1; 2; 2] /\
-  flatten_req g [2; 0; 1] [3; 2; 2] (Some [1; 2; 2]) =
-    [(2456, 8); (2472, 8); (2520, 8); (2536, 8); (2656, 8); (2672, 8); (2720, 8); (2736, 8);
-     (2856, 8); (2872, 8); (2920, 8); (2936, 8)] /\
-  pair_elems 8 (flatten_req g [2; 0; 1] [3; 2; 2] (Some [1; 2; 2])) = spec_offsets g [2; 0; 1] [3; 2; 2] [1; 2; 2].
+  wf_geom g /\ req_ok (g_shape g) [2; 0; 1] [3; 2; 2] [2; 2; 2] /\
+  flatten_req g [2; 0; 1] [3; 2; 2] (Some [2; 2; 2]) =
+    [(2456, 8); (2472, 8); (2520, 8); (2536, 8); (2856, 8); (2872, 8); (2920, 8); (2936, 8);
+     (3256, 8); (3272, 8); (3320, 8); (3336, 8)] /\
+  pair_elems 8 (flatten_req g [2; 0; 1] [3; 2; 2] (Some [2; 2; 2])) = spec_offsets g [2; 0; 1] [3; 2; 2] [2; 2; 2].
 Proof.
   cbv zeta. split; [|split; [|split; reflexivity]].
   - unfold wf_geom, dims_wf, rec_packed. cbn. repeat split; try lia. repeat constructor; lia.
   - cbn. repeat split; try lia.
+Qed.
+
+(* ---------- the code before the fix of the record-stride defect ---------- *)
+Definition flatten_req_old (g : geom) (start count : list Z) (stride : option (list Z)) : list (Z * Z) :=
+  match g_shape g with
+  | [] => [(g_begin g, g_xsz g)]
+  | _ =>
+    let st := match stride with Some t => t | None => ones (length (g_shape g)) end in
+    if g_isrec g then
+      let vb := g_begin g + hd 0 start * g_recsize g in
+      flat_map (fun j => flatten_subarray (g_xsz g) (vb + j * g_recsize g)
+                                          (tl (g_shape g)) (tl start) (tl count) (tl st))
+               (zrange 0 (hd 0 count))
+    else flatten_subarray (g_xsz g) (g_begin g) (g_shape g) start count st
+  end.
+
+Definition g_aggr_bug : geom := mkgeom 512 4 [0; 3] 12 1.
+
+(* refuted for the old code: var_begin advanced by ONE record per iteration where the request asks
+   for stride[0] records: records 0 and 1 were written instead of 0 and 2.  The witness is replayed
+   on the library by checks/C10.py (regression input `aggr:rec-stride`). *)
+Theorem flatten_req_old_refuted :
+  ~ (forall g start count stride,
+       wf_geom g -> req_ok (g_shape g) start count stride -> zprod count <> 0 ->
+       pair_elems (g_xsz g) (flatten_req_old g start count (Some stride)) = spec_offsets g start count stride).
+Proof.
+  intros H. specialize (H g_aggr_bug [0; 0] [2; 3] [2; 1]).
+  assert (Hwf : wf_geom g_aggr_bug).
+  { unfold wf_geom, g_aggr_bug, dims_wf, rec_packed. cbn. repeat split; try lia.
+    repeat constructor; lia. }
+  assert (Hreq : req_ok (g_shape g_aggr_bug) [0; 0] [2; 3] [2; 1]).
+  { cbn. repeat split; try lia. }
+  specialize (H Hwf Hreq ltac:(cbn; lia)). vm_compute in H. discriminate.
+Qed.
+
+(* ... and it was wrong only there *)
+Theorem flatten_req_old_partial : forall g start count stride,
+  (g_isrec g = true -> hd 1 stride = 1 \/ hd 0 count = 1) ->
+  flatten_req_old g start count (Some stride) = flatten_req g start count (Some stride) \/
+  hd 0 count = 1.
+Proof.
+  intros g start count stride H. unfold flatten_req_old, flatten_req.
+  destruct (g_shape g) as [|s0 ss]; [now left|].
+  destruct (g_isrec g); [|now left].
+  destruct (H eq_refl) as [E|E]; [left|now right].
+  rewrite E. apply flat_map_ext. intros j. do 2 f_equal. ring.
 Qed.
 
 (* ================================================================== *)
